@@ -205,6 +205,10 @@ func (fr *Frame) doCall(cc *ssa.CallCommon, site ssa.Instruction, args []Term, c
 		for _, cs := range fc.Calls {
 			if matchPattern(cs.Pattern, onames) {
 				sites = append(sites, cs)
+				if top.patHit == nil {
+					top.patHit = map[string]bool{}
+				}
+				top.patHit[cs.Pattern] = true
 			}
 		}
 	}
@@ -1913,7 +1917,7 @@ func runTop(c *Ctx, fn *ssa.Function, fc *FuncContract) (err error) {
 			}
 		}
 		for _, cs := range fc.Calls {
-			used := false
+			used := fr.patHit[cs.Pattern]
 			for k := range fr.callOrd {
 				if strings.HasPrefix(k, "call:") && matchPattern(cs.Pattern, []string{k[5:]}) {
 					used = true
